@@ -7,6 +7,9 @@ rsync -a --delete --exclude target --exclude Cargo.toml ${DEVSRC:-/verif/harness
 cd /tmp/wt_clean && git checkout -q -- . && git clean -fdq
 [ "$patch" != none ] && { git apply "$patch" || exit 3; }
 cd /tmp/hdev && CARGO_TARGET_DIR=/verif/build/harness_dev cargo build --release --offline --bin cv 2>&1 | grep -E "^error" -A5
+# the binary legs (C04, C06, C20) use a CLI built from the scratch worktree
+(cd /tmp/wt_clean && cargo build --release --offline -p chiritori-cli --target-dir /verif/build/cli_dev 2>&1 | grep -E "^error" -A5)
+export CV_CLI_BIN=/verif/build/cli_dev/release/chiritori CV_TMP=/verif/build/tmp_dev TZ=UTC
 for p in "$@"; do
   for i in $(seq 0 15); do
     /verif/build/harness_dev/release/cv run $p --tier ${TIER:-quick} --seed ${SEED:-0} --shard $i/16 --out /tmp/hdev_out_$p.$i.json --known /verif/known_findings.json &
